@@ -1989,7 +1989,7 @@ Lemma asm_vol_inv pol ffs3 h buf files h' nb :
     nb = splice 50 (le_enc 2 ((0 - sum16 (sub 0 (v_hdrlen h) (splice 50 [0; 0] b5))) mod 65536))
                 (splice 50 [0; 0] b5) /\
     60 <= zlen b5 /\ 0 <= v_hdrlen h <= zlen b5 /\ Z.even (v_hdrlen h) = true /\
-    zlen blocks = zlen (v_blocks h) /\ 0 <= newlen /\
+    nblocks blocks = nblocks (v_blocks h) /\ 0 <= newlen /\
     zlen b5 = (if newlen <? len then len else newlen) /\
     (v_resizable h = false -> newlen <= len) /\
     (newlen <= len \/ exists c0 s0 rest, v_blocks h = (c0, s0) :: rest /\ s0 <> 0 /\
@@ -1999,9 +1999,11 @@ Lemma asm_vol_inv pol ffs3 h buf files h' nb :
        sub a l b5 = sub (a - newlen) l (zrepeat pol (len - newlen))).
 Proof.
   intros H Hne. destruct files as [|f0 fs]; [congruence|]. unfold asm_vol in H. cbv zeta in H.
+  cbn [andb] in H.
   destruct (v_length h <? zlen buf); [discriminate|].
   destruct (v_blocks h) as [|[c0 s0] rest] eqn:EBl; [discriminate|].
   destruct (v_dataoff h <? v_hdrlen h) eqn:EDo; [discriminate|].
+  destruct (zlen buf <? v_dataoff h) eqn:EDb; [discriminate|].
   destruct (slice 0 (v_dataoff h) buf) as [hdr|] eqn:EHd; cbn [of_opt bind] in H; [|discriminate].
   destruct (place_files pol _ hdr (v_dataoff h) (f0 :: fs)) as [b1| | |] eqn:EPl; cbn [bind] in H; try discriminate.
   assert (LD : v_hdrlen h <= zlen b1).
@@ -2014,11 +2016,11 @@ Proof.
      then if s0 =? 0 then Err E_BLOCK0
           else Ok (align_go newlen s0, ((align_go newlen s0 / s0) mod U32, s0) :: rest)
      else Ok (v_length h, (c0, s0) :: rest)) = Ok (len, blocks) /\
-    zlen blocks = zlen ((c0, s0) :: rest) /\ (v_resizable h = false -> newlen <= len) /\
+    nblocks blocks = nblocks ((c0, s0) :: rest) /\ (v_resizable h = false -> newlen <= len) /\
     (newlen <= len \/ (s0 <> 0 /\ len = align_go newlen s0))) as (len & blocks & Elb & Lb & Lr & Lg).
   { destruct (v_length h <? newlen) eqn:EN.
     - destruct (s0 =? 0) eqn:Es0; [cbn [bind] in H; discriminate|].
-      eexists _, _. split; [reflexivity|]. split; [rewrite !zlen_cons; reflexivity|]. split.
+      eexists _, _. split; [reflexivity|]. split; [cbn [nblocks]; rewrite Es0, !andb_false_r; reflexivity|]. split.
       + intros Hr. rewrite Hr in EG. cbn in EG. discriminate.
       + right. split; [lia|reflexivity].
     - eexists _, _. split; [reflexivity|]. split; [reflexivity|]. split; [intros _; lia|left; lia]. }
@@ -2064,7 +2066,7 @@ Qed.
 Lemma asm_vol_clean pol ffs3 h buf files h' nb :
   asm_vol pol ffs3 h buf files = Ok (h', nb) -> files <> [] ->
   pol = fv_polarity (v_attrs h) -> zlen nb < 2 ^ 63 ->
-  v_hdrlen h = 56 + 8 * (zlen (v_blocks h) + 1) -> v_rev h = 2 -> v_sig h = c09_fv_signature ->
+  v_hdrlen h = 56 + 8 * (nblocks (v_blocks h) + 1) -> v_rev h = 2 -> v_sig h = c09_fv_signature ->
   known_fv_guid (v_guid h) = true ->
   zlen nb = v_length h' ->
   validate_vol h' nb = Ok [].
@@ -2072,7 +2074,7 @@ Proof.
   intros HA Hne Hpol Hsm HH HR HSg HG HLen.
   destruct (asm_vol_inv _ _ _ _ _ _ _ HA Hne) as (len & blocks & b5 & newlen & -> & -> & L60 & LH & EV & LB & N0 & L5 & _ & _ & LD & Ltail).
   cbn [v_length] in HLen.
-  pose proof (zlen_nonneg (v_blocks h)) as Nb.
+  pose proof (nblocks_nonneg (v_blocks h)) as Nb.
   set (b6 := splice 50 [0; 0] b5) in *.
   assert (L6 : zlen b6 = zlen b5) by (apply zlen_splice; change (zlen [0; 0]) with 2; lia).
   set (sum := (0 - sum16 (sub 0 (v_hdrlen h) b6)) mod 65536) in *.
@@ -2084,7 +2086,7 @@ Proof.
   replace (v_hdrlen h <? 64) with false by lia.
   replace (zlen b5 <? v_hdrlen h) with false by lia.
   rewrite slice_ok by lia. cbn [of_opt bind]. rewrite Z.sub_0_r.
-  rewrite LB. replace (v_hdrlen h =? 56 + 8 * (zlen (v_blocks h) + 1)) with true by lia.
+  rewrite LB. replace (v_hdrlen h =? 56 + 8 * (nblocks (v_blocks h) + 1)) with true by lia.
   assert (G : known_fv_guid (if ffs3 && bytes_eqb (v_guid h) FFS2 then FFS3 else v_guid h) = true)
     by (destruct (ffs3 && bytes_eqb (v_guid h) FFS2); [apply known_ffs3|exact HG]).
   rewrite G, HR, HSg, !Z.eqb_refl. rewrite HLen, Z.eqb_refl.
@@ -2147,7 +2149,7 @@ Qed.
 Lemma no_false_alarm_volume pol ffs3 h buf files h' nb :
   asm_vol pol ffs3 h buf files = Ok (h', nb) -> files <> [] -> v_resizable h = false ->
   pol = fv_polarity (v_attrs h) -> zlen nb < 2 ^ 63 ->
-  v_hdrlen h = 56 + 8 * (zlen (v_blocks h) + 1) -> v_rev h = 2 -> v_sig h = c09_fv_signature ->
+  v_hdrlen h = 56 + 8 * (nblocks (v_blocks h) + 1) -> v_rev h = 2 -> v_sig h = c09_fv_signature ->
   known_fv_guid (v_guid h) = true ->
   validate_vol h' nb = Ok [].
 Proof.
@@ -2178,7 +2180,7 @@ Lemma no_false_alarm_volume_any pol ffs3 h buf files h' nb :
   asm_vol pol ffs3 h buf files = Ok (h', nb) -> files <> [] ->
   (forall c s rest, v_blocks h = (c, s) :: rest -> 0 < s < 2 ^ 32) -> zlen nb < 2 ^ 63 ->
   pol = fv_polarity (v_attrs h) ->
-  v_hdrlen h = 56 + 8 * (zlen (v_blocks h) + 1) -> v_rev h = 2 -> v_sig h = c09_fv_signature ->
+  v_hdrlen h = 56 + 8 * (nblocks (v_blocks h) + 1) -> v_rev h = 2 -> v_sig h = c09_fv_signature ->
   known_fv_guid (v_guid h) = true ->
   validate_vol h' nb = Ok [].
 Proof.
@@ -2209,7 +2211,7 @@ Lemma vol_asm_clean h buf kids' st n st' :
   vol_asm h buf kids' st = Ok (n, st') -> kids' <> [] ->
   (forall c s rest, v_blocks h = (c, s) :: rest -> 0 < s < 2 ^ 32) -> zlen (node_buf n) < 2 ^ 63 ->
   fst st = fv_polarity (v_attrs h) ->
-  v_hdrlen h = 56 + 8 * (zlen (v_blocks h) + 1) -> v_rev h = 2 -> v_sig h = c09_fv_signature ->
+  v_hdrlen h = 56 + 8 * (nblocks (v_blocks h) + 1) -> v_rev h = 2 -> v_sig h = c09_fv_signature ->
   known_fv_guid (v_guid h) = true ->
   exists h' nb, n = NVol h' nb kids' /\ validate_vol h' nb = Ok [].
 Proof.
